@@ -219,7 +219,9 @@ func apiReplay(args []string) int {
 	fs := flag.NewFlagSet("api-replay", flag.ExitOnError)
 	in := fs.String("in", "", "")
 	out := fs.String("out", "", "")
+	meta := fs.Int("meta-sample", 1, "metamorphic re-runs (floods, insertions) on one case in N (long cases always)")
 	fs.Parse(args)
+	dkgsim.MetaSample = uint32(*meta)
 	f, err := os.Open(*in)
 	if err != nil {
 		fmt.Fprintln(os.Stderr, err)
